@@ -34,6 +34,19 @@ def chainAux (σ : Store) : Nat → Nat → List Nat
 /-- the parent chain of frame `ρ` (a chain without repetition has at most `frames.size` members) -/
 def chain (σ : Store) (ρ : Nat) : List Nat := chainAux σ σ.frames.size ρ
 
+/-- the parent chain of `ρ` followed only through links to OLDER frames (a link to a frame that is
+not older — never created by the evaluator — ends the chain, as it ends `LexicalScope::get` in the
+model) -/
+def chainOlderAux (σ : Store) : Nat → Nat → List Nat
+  | 0, _ => []
+  | k + 1, ρ =>
+    match σ.frames[ρ]? with
+    | none => []
+    | some f => ρ :: (match f.parent with
+      | some p => if p < ρ then chainOlderAux σ k p else []
+      | none => [])
+def chainOlder (σ : Store) (ρ : Nat) : List Nat := chainOlderAux σ (ρ + 1) ρ
+
 /-- parents are older than their children (new frames are pushed at the end of the store) -/
 def ParentsOlder (σ : Store) : Prop :=
   ∀ (i : Nat) (f : Frame) (p : Nat), σ.frames[i]? = some f → f.parent = some p → p < i
